@@ -1,9 +1,10 @@
 (** The int32-faithful model of bitstr.New / bitstr.Len (Model/Bitstr32.v) against
-    the unbounded one (Model/Bitstr.v): equal below the top of the int32 range,
-    and a panic of New32 within 7 bits of MaxInt32. *)
+    the unbounded one (Model/Bitstr.v): equal on the whole int32 range (since the
+    /repo fix b2a771a), Len whenever its value fits int32; and, for the pre-fix
+    arithmetic (Model/LegacyBitstr32.v), a panic of New within 7 bits of MaxInt32. *)
 From Coq Require Import ZArith List Bool Lia.
 From Low Require Import Lib.MachInt Lib.Bits Lib.BitSeq Lib.Bytes Lib.Lex Lib.Pack_bw Lib.PackLemmas_bw
-  Model.Bitstr Model.Bitstr32 Spec.BitstrSpec Proofs.BitstrProofs.
+  Model.Bitstr Model.Bitstr32 Model.LegacyBitstr32 Spec.BitstrSpec Proofs.BitstrProofs.
 Import ListNotations.
 Open Scope Z_scope.
 
@@ -13,10 +14,75 @@ Proof. reflexivity. Qed.
 Lemma shiftr_3 x : Z.shiftr x 3 = x / 8.
 Proof. now rewrite Z.shiftr_div_pow2 by lia. Qed.
 
-(** * below the top of the range the wraps are invisible *)
-Lemma New32_eq s f t : 0 <= f <= t -> t + 7 < 2 ^ 31 -> New32 s f t = New s f t.
+Lemma sar64_3 x : sar64 x 3 = x / 8.
+Proof. reflexivity. Qed.
+
+(** * the current code: no wrap is visible anywhere on the int32 range *)
+Lemma New32_eq s f t : 0 <= f <= t -> t < 2 ^ 31 -> New32 s f t = New s f t.
 Proof.
   intros H Ht. unfold New32, New. cbv zeta.
+  destruct ((f =? t) && (Z.land f 7 =? 0)); [reflexivity|].
+  rewrite !sar32_3, !shiftr_3.
+  rewrite (i64_id (t + 7)) by lia. rewrite sar64_3.
+  assert (0 <= f / 8 <= (t + 7) / 8) by (split; [apply Z.div_pos; lia|apply Z.div_le_mono; lia]).
+  assert ((t + 7) / 8 <= 2 ^ 28) by (Z.div_mod_to_equations; lia).
+  rewrite (i32_id ((t + 7) / 8)) by lia.
+  rewrite (i32_id ((t + 7) / 8 - f / 8)) by lia.
+  rewrite (i32_id ((t + 7) / 8 - f / 8 + 1)) by lia.
+  rewrite (i32_id (8 - t)) by lia.
+  rewrite (i32_id ((t + 7) / 8 - f / 8 - 1)) by lia.
+  reflexivity.
+Qed.
+
+(** int32 arithmetic is arithmetic modulo 2^32: intermediate wraps cancel *)
+Lemma i32_add_l x y : i32 (i32 x + y) = i32 (x + y).
+Proof. apply i32_congr. unfold i32. Z.div_mod_to_equations. lia. Qed.
+
+Lemma i32_mul8 x : i32 (i32 x * 8) = i32 (x * 8).
+Proof. apply i32_congr. unfold i32. Z.div_mod_to_equations. lia. Qed.
+
+(** Len: [int32(l)<<3] and [- 16] may wrap (an encoding of 2^28 payload bytes has
+    l*8 = 2^31 + 8), the final value is right whenever it fits int32 *)
+Lemma Len32_eq bs v : Len bs = Some v -> - 2 ^ 31 <= v < 2 ^ 31 -> Len32 bs = Some v.
+Proof.
+  unfold Len32, Len. cbv zeta.
+  destruct (nthZ bs (zlen bs - 1)) as [last|]; [|discriminate].
+  intros E Hv. injection E as E. f_equal.
+  unfold sshl32. change (3 <? 32) with true. cbv iota. change (2 ^ 3) with 8.
+  rewrite i32_mul8.
+  replace (i32 (zlen bs * 8) - 16) with (i32 (zlen bs * 8) + (- 16)) by lia.
+  rewrite i32_add_l, <- Z.add_assoc, i32_add_l.
+  replace (zlen bs * 8 + (-16 + popcount last)) with v by lia.
+  now apply i32_id.
+Qed.
+
+(** hence the property theorems hold for the int32 model on Go's own range *)
+Lemma New32_encB s f t : bytes_ok s -> 0 <= f <= t -> t <= 8 * zlen s -> t < 2 ^ 31 ->
+  New32 s f t = Some (encB (B s f t)).
+Proof. intros Hs H Ht H31. rewrite New32_eq by assumption. now apply New_encB. Qed.
+
+Lemma Len32_encB b : zlen b < 2 ^ 31 -> Len32 (encB b) = Some (zlen b).
+Proof.
+  intros H. apply Len32_eq; [apply Len_encB|]. pose proof (zlen_nonneg b). lia.
+Qed.
+
+(** the composition the protocol operation runs, on the whole literal domain
+    0 <= from <= to <= 8*len(s), to an int32 *)
+Lemma Len32_New32 s f t : bytes_ok s -> 0 <= f <= t -> t <= 8 * zlen s -> t < 2 ^ 31 ->
+  match New32 s f t with Some e => Len32 e | None => None end = Some (t - 8 * (f / 8)).
+Proof.
+  intros Hs H Ht H31. rewrite New32_encB by assumption.
+  assert (L : zlen (B s f t) = t - 8 * (f / 8)).
+  { unfold B, zlen in *. rewrite firstn_length, skipn_length, Lib.Bytes.msb_bits_length.
+    assert (0 <= 8 * (f / 8) <= f) by (Z.div_mod_to_equations; lia). lia. }
+  rewrite Len32_encB; [now rewrite L|].
+  rewrite L. assert (0 <= 8 * (f / 8)) by (Z.div_mod_to_equations; lia). lia.
+Qed.
+
+(** * LEGACY (before b2a771a): below the top of the range the old arithmetic was right … *)
+Lemma New32_legacy_eq s f t : 0 <= f <= t -> t + 7 < 2 ^ 31 -> New32_legacy s f t = New s f t.
+Proof.
+  intros H Ht. unfold New32_legacy, New. cbv zeta.
   destruct ((f =? t) && (Z.land f 7 =? 0)); [reflexivity|].
   rewrite !sar32_3, !shiftr_3.
   rewrite (i32_id (t + 7)) by lia.
@@ -29,49 +95,12 @@ Proof.
   reflexivity.
 Qed.
 
-Lemma Len32_eq bs : 8 * zlen bs < 2 ^ 31 -> bytes_ok bs -> Len32 bs = Len bs.
-Proof.
-  intros H Hb. unfold Len32, Len. cbv zeta.
-  destruct (nthZ bs (zlen bs - 1)) as [last|] eqn:E; [|reflexivity]. f_equal.
-  assert (Hl : 0 <= last < 256).
-  { apply nthZ_Some in E as [_ E]. apply nth_error_In in E.
-    unfold bytes_ok in Hb. rewrite Forall_forall in Hb. apply Hb. exact E. }
-  assert (Hp : 0 <= popcount last <= 8).
-  { split; [apply popcount_nonneg|].
-    rewrite (popcount_bits 8) by (change (2 ^ Z.of_nat 8) with 256; lia).
-    pose proof (count_true_le_length (bits 8 last)) as L. rewrite bits_length in L. lia. }
-  pose proof (zlen_nonneg bs) as Hz.
-  assert (Hz1 : 1 <= zlen bs).
-  { apply nthZ_Some in E as [E0 _]. lia. }
-  rewrite (i32_id (zlen bs)) by lia.
-  unfold sshl32. change (3 <? 32) with true. cbv iota. change (2 ^ 3) with 8.
-  rewrite (i32_id (zlen bs * 8)) by lia.
-  rewrite (i32_id (zlen bs * 8 - 16)) by lia.
-  rewrite i32_id by lia. reflexivity.
-Qed.
-
-(** hence the property theorems hold for the int32 model on Go's own range *)
-Lemma New32_encB s f t : bytes_ok s -> 0 <= f <= t -> t <= 8 * zlen s -> t + 7 < 2 ^ 31 ->
-  New32 s f t = Some (encB (B s f t)).
-Proof. intros Hs H Ht H31. rewrite New32_eq by assumption. now apply New_encB. Qed.
-
-Lemma Len32_encB b : 8 * zlen (encB b) < 2 ^ 31 -> Len32 (encB b) = Some (zlen b).
-Proof.
-  intros H. rewrite Len32_eq; [apply Len_encB|exact H|].
-  unfold encB. apply Forall_app. split; [apply pack_bytes_ok|].
-  constructor; [|constructor]. rewrite mask_eq. pose proof (padn_lt (length b)) as P.
-  unfold byte_ok.
-  assert (0 < 2 ^ Z.of_nat (padn (length b))) by (apply Z.pow_pos_nonneg; lia).
-  assert (2 ^ Z.of_nat (padn (length b)) <= 2 ^ 7) by (apply Z.pow_le_mono_r; lia).
-  change (2 ^ 7) with 128 in *. lia.
-Qed.
-
-(** * within 7 bits of MaxInt32, [(toBit + 7) >> 3] overflows and [make] panics,
+(** … but within 7 bits of MaxInt32, [(toBit + 7) >> 3] overflowed and [make] panicked,
       whatever the string — although such [toBit] are valid int32 values and can be
       [<= 8*len(s)] (for a string of 2^28 bytes) *)
-Lemma New32_top s f t : 0 <= f <= t -> 2 ^ 31 - 7 <= t < 2 ^ 31 -> New32 s f t = None.
+Lemma New32_legacy_top s f t : 0 <= f <= t -> 2 ^ 31 - 7 <= t < 2 ^ 31 -> New32_legacy s f t = None.
 Proof.
-  intros H Ht. unfold New32. cbv zeta.
+  intros H Ht. unfold New32_legacy. cbv zeta.
   assert (Hc : (f =? t) && (Z.land f 7 =? 0) = false).
   { apply andb_false_iff. destruct (Z.eqb_spec f t) as [->|]; [right|now left].
     apply Z.eqb_neq. change 7 with (Z.ones 3). rewrite Z.land_ones by lia. change (2 ^ 3) with 8.
@@ -90,12 +119,17 @@ Proof.
 Qed.
 
 (** a witness inside the property's stated domain: a string of 2^28 bytes *)
-Lemma New32_top_witness : exists s f t,
-  bytes_ok s /\ 0 <= f <= t /\ t <= 8 * zlen s /\ in_i32 f /\ in_i32 t /\ New32 s f t = None.
+Lemma New32_legacy_top_witness : exists s f t,
+  bytes_ok s /\ 0 <= f <= t /\ t <= 8 * zlen s /\ in_i32 f /\ in_i32 t /\ New32_legacy s f t = None.
 Proof.
   exists (repeat 0 (Z.to_nat (2 ^ 28))), (2 ^ 31 - 4), (2 ^ 31 - 1).
   assert (L : zlen (repeat 0 (Z.to_nat (2 ^ 28))) = 2 ^ 28) by (unfold zlen; rewrite repeat_length; lia).
   split; [|split; [lia|split; [rewrite L; lia|split; [unfold in_i32; lia|split; [unfold in_i32; lia|]]]]].
   - unfold bytes_ok. apply Forall_forall. intros x Hx. apply repeat_spec in Hx. subst. unfold byte_ok. lia.
-  - apply New32_top; lia.
+  - apply New32_legacy_top; lia.
 Qed.
+
+(** … where the repaired code works: the same witness, and every call in that band on a long enough string *)
+Lemma New32_top_fixed s f t : bytes_ok s -> 0 <= f <= t -> t <= 8 * zlen s ->
+  2 ^ 31 - 7 <= t < 2 ^ 31 -> New32 s f t = Some (encB (B s f t)).
+Proof. intros Hs H Ht Hb. apply New32_encB; try assumption; lia. Qed.
